@@ -125,8 +125,8 @@ def encV : VObs → String
 def modelPresence (c : Case) : List Path := presence c.top
 def modelLeaves (pm : List Path) : List Path := leafPaths pm
 def modelValidate (c : Case) (pm : List Path) : VObs :=
-  if c.full then .res (validateFullAsIs c.fullErrs c.opts)
-  else .res (validatePartialF pm c.rules c.opts)
+  if c.full then .res (validateFull c.fullErrs c.opts)
+  else .res (validatePartial pm c.rules c.opts)
 
 /-- errors that ought to be reported, evaluated on the presence set the implementation reported -/
 def want (c : Case) (o : Obs) : List Want :=
